@@ -9,7 +9,8 @@ case kinds
       -> {"exc": null|class name, "links": [[name, base, location], ...] (dict order),
           "reports": [[where, message, thresh], ...], "answers": [[name, url|null], ...]}
   {"k":"project", "mods":[[modname, source, parent|null, is_package], ...], "privacy":[[CLASS, pattern], ...],
-   "files": {relpath: source} (added by path, in sorted order of the top-level entries), "html": bool,
+   "files": {relpath: source} (added by path, in sorted order of the top-level entries),
+   "paths": [path relative to the repository root, ...] (real packages, read in place), "html": bool,
    "project": str, "version": str}
       builds a System, runs driver.make(system) with makeintersphinx, reads objects.inv back with
       pydoctor's SphinxInventory and with sphinx.util.inventory.InventoryFile
@@ -138,6 +139,10 @@ def run_project(case):
                 p.write_text(text, encoding='utf-8')
             for top in sorted(src.iterdir()):
                 b.addModule(top)
+        for rel in case.get('paths', []):
+            # real packages shipped with pydoctor, relative to the directory that holds the pydoctor package
+            import pydoctor
+            b.addModule(Path(pydoctor.__file__).resolve().parent.parent / rel)
         for name, text, parent, ispkg in case.get('mods', []):
             b.addModuleString(text, name, parent, ispkg)
         try:
